@@ -31,7 +31,7 @@ CONSTANTS KINDS,      \* subset of {0,1,2}
           BINS,       \* requested binning values (0 and non powers of two included on purpose)
           TYPES,      \* requested sample types
           XS, YS,     \* requested shape.x / shape.y values
-          OES,        \* set of <<offset.x, offset.y, exposure_us>>
+          OES,        \* subset of 0..3: codes of <<offset.x, offset.y, exposure_us>> triples, see OE
           AVX, FIX_SIZE, FIX_LOCK, FIX_ALIGN, ALIGN16,
           MaxDepth,   \* client calls per history
           SampleMod   \* export 1 transition in SampleMod
@@ -110,12 +110,14 @@ Set(r) ==
        /\ UNCHANGED <<kind, props, ish, fsize, rsize, cap, replaced, rendered, configured, req>>
   /\ Record("S", <<r.b, r.t, r.ox, r.oy, r.sx, r.sy, r.ex>>)
 
-FirstRequests == { [b |-> b, t |-> t, ox |-> oe[1], oy |-> oe[2], sx |-> x, sy |-> y, ex |-> oe[3]] :
-                     b \in BINS, t \in TYPES, x \in XS, y \in YS, oe \in OES }
+\* offsets are in binned pixels and are not clamped by the camera; exposure in whole microseconds
+OE(c) == CASE c = 0 -> <<0, 0, 1>> [] c = 1 -> <<7, 3, 1>> [] c = 2 -> <<9000, 8191, 40>> [] OTHER -> <<1, 4095, 2>>
+FirstRequests == { [b |-> b, t |-> t, ox |-> OE(c)[1], oy |-> OE(c)[2], sx |-> x, sy |-> y, ex |-> OE(c)[3]] :
+                     b \in BINS, t \in TYPES, x \in XS, y \in YS, c \in OES }
 \* get / modify one field / set, as clients do
 NextRequests == { [props EXCEPT !.b = b] : b \in BINS } \cup { [props EXCEPT !.t = t] : t \in TYPES }
                 \cup { [props EXCEPT !.sx = x] : x \in XS } \cup { [props EXCEPT !.sy = y] : y \in YS }
-                \cup { [props EXCEPT !.ox = oe[1], !.oy = oe[2], !.ex = oe[3]] : oe \in OES }
+                \cup { [props EXCEPT !.ox = OE(c)[1], !.oy = OE(c)[2], !.ex = OE(c)[3]] : c \in OES }
 
 \* ---- camera_start / camera_stop ------------------------------------------------------------------
 Start ==
